@@ -10,7 +10,7 @@ use serde_json::json;
 
 use crate::engine::Engine;
 use crate::sim::{Stats, Violation};
-use crate::{rng, shrink};
+use crate::shrink;
 
 pub const DEFAULT_SEED: u64 = 20_250_925;
 pub const VERIF: &str = "/verif";
@@ -98,7 +98,7 @@ pub fn worker<E: Engine>(prop: &str, seed: u64, start: u64, stride: u64, total: 
             let _ = writeln!(l, "R {i}");
             let _ = l.flush();
         }
-        let trace = E::generate(prop, rng::run_seed(seed, prop, i));
+        let trace = E::generate_at(prop, seed, i);
         let s = E::run(&trace, false, false);
         out.evals += 1;
         if s.stats.faults.is_empty() {
@@ -273,7 +273,7 @@ pub fn check<E: Engine>(prop: &str, tier: &str, level: &str, extra: serde_json::
 /// Like `check`, but hands the evidence back instead of writing it (for checks made of sub-batches).
 pub fn run_check<E: Engine>(prop: &str, tier: &str, level: &str, extra: serde_json::Value) -> (i32, Option<serde_json::Value>) {
     let seed = seed_from_env();
-    let total = budget(if E::FAMILY == "c12c" { "C12c" } else { prop }, tier);
+    let total = E::fixed_total(tier).unwrap_or_else(|| budget(if E::FAMILY == "c12c" { "C12c" } else { prop }, tier));
     let known = load_known();
     let t0 = Instant::now();
 
@@ -317,12 +317,12 @@ pub fn run_check<E: Engine>(prop: &str, tier: &str, level: &str, extra: serde_js
         return (2, None);
     }
     for i in &batch.crashes {
-        let trace = E::generate(prop, rng::run_seed(seed, prop, *i));
+        let trace = E::generate_at(prop, seed, *i);
         let v = Violation { prop: if prop == "C06" { "C06".into() } else { prop.to_string() }, oracle: "process_abort".into(), detail: format!("worker process died in run {i}"), step: 0 };
         violations.push((format!("run:{i}"), v, trace, *i));
     }
     if let Some((i, v)) = batch.out.violations.first() {
-        let trace = E::generate(prop, rng::run_seed(seed, prop, *i));
+        let trace = E::generate_at(prop, seed, *i);
         violations.push((format!("run:{i}"), v.clone(), trace, *i));
     }
 
